@@ -22,6 +22,9 @@ type Ledger struct {
 	Reads    int
 	FailRead int // 1-based; 0 = never
 	Jitter   func()
+	// ViaLedgerAPI: storages created over this ledger reach it through the library's own
+	// LedgerBaseStorage (owner/key/value interface of a Flow-style ledger) instead of directly
+	ViaLedgerAPI bool
 }
 
 type LogEntry struct {
@@ -128,6 +131,7 @@ func (l *Ledger) Clone() *Ledger {
 	for a, n := range l.next {
 		c.next[a] = n
 	}
+	c.ViaLedgerAPI = l.ViaLedgerAPI
 	return c
 }
 
@@ -151,5 +155,60 @@ func DiffRegs(a, b map[atree.SlabID][]byte) string {
 }
 
 func NewStorage(l atree.BaseStorage) *atree.PersistentSlabStorage {
+	if hl, ok := l.(*Ledger); ok && hl.ViaLedgerAPI {
+		l = atree.NewLedgerBaseStorage(&ledgerAdapter{hl})
+	}
 	return atree.NewPersistentSlabStorage(l, EncMode, DecMode, DecodeStorable, DecodeTypeInfo)
+}
+
+// ledgerAdapter presents a harness Ledger through the owner/key/value interface that
+// atree.LedgerBaseStorage expects (keys are "$" followed by the 8-byte slab index; an empty value deletes).
+type ledgerAdapter struct{ l *Ledger }
+
+var _ atree.Ledger = &ledgerAdapter{}
+
+func (a *ledgerAdapter) id(owner, key []byte) (atree.SlabID, error) {
+	if len(owner) != 8 || len(key) != 9 || !atree.LedgerKeyIsSlabKey(string(key)) {
+		return atree.SlabID{}, fmt.Errorf("verif: unexpected ledger key %x / %x", owner, key)
+	}
+	return atree.NewSlabIDFromRawBytes(append(append([]byte(nil), owner...), key[1:]...))
+}
+
+func (a *ledgerAdapter) GetValue(owner, key []byte) ([]byte, error) {
+	id, err := a.id(owner, key)
+	if err != nil {
+		return nil, err
+	}
+	b, _, err := a.l.Retrieve(id)
+	return b, err
+}
+
+func (a *ledgerAdapter) SetValue(owner, key, value []byte) error {
+	id, err := a.id(owner, key)
+	if err != nil {
+		return err
+	}
+	if len(value) == 0 {
+		return a.l.Remove(id)
+	}
+	return a.l.Store(id, value)
+}
+
+func (a *ledgerAdapter) ValueExists(owner, key []byte) (bool, error) {
+	id, err := a.id(owner, key)
+	if err != nil {
+		return false, err
+	}
+	_, ok := a.l.Regs[id]
+	return ok, nil
+}
+
+func (a *ledgerAdapter) AllocateSlabIndex(owner []byte) (atree.SlabIndex, error) {
+	var addr atree.Address
+	copy(addr[:], owner)
+	id, err := a.l.GenerateSlabID(addr)
+	if err != nil {
+		return atree.SlabIndex{}, err
+	}
+	return id.Index(), nil
 }
